@@ -73,7 +73,9 @@ pub fn copy_file_offset(infd: &File, outfd: &File, bytes: u64, off: i64) -> Resu
     while copied < bytes {
         let remaining = bytes - copied;
         match try_copy_file_range(infd, Some(&mut off_in), outfd, Some(&mut off_out), remaining) {
-            Some(Ok(0)) => break, // EOF
+            // The source ends inside the block; the user-space
+            // path reports the same.
+            Some(Ok(0)) => return Err(crate::Error::InvalidSource("Source file ended prematurely.")),
             Some(Ok(n)) => copied += n as u64,
             Some(Err(e)) => return Err(e),
             None => {
